@@ -14,7 +14,7 @@ def run(ctx):
         ctx.audit("C18")
     if ctx.tier == "thorough":
         ctx.leanchecker(["AvoVerif.Model.Ctx", "AvoVerif.Props.C18"])
-    n = 20000 if ctx.tier == "quick" else 600000
+    n = 20000 if ctx.tier == "quick" else 300000
 
     def nontrivial(req, resp):
         # a history that reaches an error path or a second section
@@ -34,7 +34,7 @@ def run(ctx):
         "allocatable limit of each kind; 3 of 4 through build.Context methods, 1 of 4 through the package-level functions "
         "on a swapped-in context; every call under recover; then Result() and build.Main with [Compile, Output(goasm), "
         "Output(stubs)] into buffers. Exact comparison with the model: error count and class per fault, node count and "
-        "local size per function, datum count and size per data section, constraint count (line c18); status, which "
+        "local size per function, datum count and size per data section, constraint count, order of file sections (line c18); status, which "
         "outputs were written, diagnostic line count (line c18main). Acceptor (accept-c18): the property itself evaluated "
         "on the implementation's outcome with fault counts computed by the model. c18max: LogError truncation "
         "(MaxErrors > 0), not part of the property. Non-trivial = reaches an error path or has several sections.")
